@@ -37,7 +37,7 @@ R(m) == Join(RenderCompact(EncodeRoot(m, <<>>, EO1), EO1))
 Emit == DoEmit => PrintT(ToJson([f |-> "esc", s |-> Join(s), e |-> Join(XmlEscape(s)), xe |-> R(MElem), xa |-> R(MAttr), xa2 |-> R(MAttr2), s2 |-> Join(S2), xm |-> R(MMixed), xl |-> R(MList),
                                  rawok |-> RawOK(s)]))
 C(x) == <<x>>
-cChunks == {C("&"), C("<"), C(">"), C("\""), C("'"), C("a"), C(";"), C("#"), C(" "),
+cChunks == {C("&"), C("<"), C(">"), C("\""), C("'"), C("a"), C(";"), C("#"), C(" "), C("\\"), C("\t"),     \* (backslash and tab: legal, not special -- written as they are)
             <<"&", "a", "m", "p", ";">>, <<"&", "#", "x", "4", "1", ";">>, <<"]", "]", ">">>, <<"<", "!", "[", "C", "D", "A", "T", "A", "[">>,
             <<"<", "/", "a", ">">>}      \* (an end tag of the enclosing element: what follows it is OUTSIDE the first root)
 =============================================================================
